@@ -100,6 +100,7 @@ type VC struct {
 	gen      int
 	assertSet map[string]bool
 	quantDepth int
+	notes    []string
 	softErr  *[]string // when set, errors are collected here instead of making the function UNDECIDED
 	iterField map[string]string
 	specMode bool // evaluating a contract expression: no obligations are generated
